@@ -170,22 +170,27 @@ Definition xyz_angles (R:Mat33 T) : Vec3 T :=
   let Rsum := nsqrt K ((m33_e R 0 0 * m33_e R 0 0 + m33_e R 0 1 * m33_e R 0 1 + m33_e R 1 2 * m33_e R 1 2 + m33_e R 2 2 * m33_e R 2 2) / two) in
   (natan2 K (- (m33_e R 1 2)) (m33_e R 2 2), natan2 K (m33_e R 0 2) Rsum, natan2 K (- (m33_e R 0 1)) (m33_e R 0 0)).
 Definition Gimbal_fitR (R:Mat33 T) : Vec3 T := xyz_angles R.
-(** Rotation::convertRotationToQuaternion (Spurrier's method, four branches, canonical sign) *)
-Definition quat_of_R (R:Mat33 T) : Vec4 T :=
+(** Rotation::convertRotationToQuaternion (Spurrier's method, four branches, canonical sign).
+    Branch k computes 4 e_k (e0,e1,e2,e3) from the matrix of a unit quaternion e. *)
+Definition quat_branch (k:nat) (R:Mat33 T) : Vec4 T :=
   let r00 := m33_e R 0 0 in let r11 := m33_e R 1 1 in let r22 := m33_e R 2 2 in
   let tr := r00 + r11 + r22 in let two := 1 + 1 in
-  let q : Vec4 T :=
-    if andb (nleb K r00 tr) (andb (nleb K r11 tr) (nleb K r22 tr)) then
-      (1 + tr, m33_e R 2 1 - m33_e R 1 2, m33_e R 0 2 - m33_e R 2 0, m33_e R 1 0 - m33_e R 0 1)
-    else if andb (nleb K r11 r00) (nleb K r22 r00) then
-      (m33_e R 2 1 - m33_e R 1 2, 1 - (tr - two * r00), m33_e R 0 1 + m33_e R 1 0, m33_e R 0 2 + m33_e R 2 0)
-    else if nleb K r22 r11 then
-      (m33_e R 0 2 - m33_e R 2 0, m33_e R 0 1 + m33_e R 1 0, 1 - (tr - two * r11), m33_e R 1 2 + m33_e R 2 1)
-    else
-      (m33_e R 1 0 - m33_e R 0 1, m33_e R 0 2 + m33_e R 2 0, m33_e R 1 2 + m33_e R 2 1, 1 - (tr - two * r22)) in
+  match k with
+  | O => (1 + tr, m33_e R 2 1 - m33_e R 1 2, m33_e R 0 2 - m33_e R 2 0, m33_e R 1 0 - m33_e R 0 1)
+  | S O => (m33_e R 2 1 - m33_e R 1 2, 1 - (tr - two * r00), m33_e R 0 1 + m33_e R 1 0, m33_e R 0 2 + m33_e R 2 0)
+  | S (S O) => (m33_e R 0 2 - m33_e R 2 0, m33_e R 0 1 + m33_e R 1 0, 1 - (tr - two * r11), m33_e R 1 2 + m33_e R 2 1)
+  | _ => (m33_e R 1 0 - m33_e R 0 1, m33_e R 0 2 + m33_e R 2 0, m33_e R 1 2 + m33_e R 2 1, 1 - (tr - two * r22))
+  end.
+Definition quat_pick (R:Mat33 T) : nat :=
+  let r00 := m33_e R 0 0 in let r11 := m33_e R 1 1 in let r22 := m33_e R 2 2 in
+  let tr := r00 + r11 + r22 in
+  if andb (nleb K r00 tr) (andb (nleb K r11 tr) (nleb K r22 tr)) then 0%nat
+  else if andb (nleb K r11 r00) (nleb K r22 r00) then 1%nat
+  else if nleb K r22 r11 then 2%nat else 3%nat.
+Definition quat_normalise (q:Vec4 T) : Vec4 T :=
   let nrm := nsqrt K (v4_normSqr K q) in
-  let scale := if nltb K (v4_0 q) 0 then - nrm else nrm in
-  v4_scale K (1 / scale) q.
+  v4_scale K (1 / (if nltb K (v4_0 q) 0 then - nrm else nrm)) q.
+Definition quat_of_R (R:Mat33 T) : Vec4 T := quat_normalise (quat_branch (quat_pick R) R).
 Definition Ball_fitRq (R:Mat33 T) : Vec4 T := quat_of_R R.
 Definition Ball_fitW (V:SV) : Vec3 T := fst V.
 Definition Free_fitV (V:SV) : Vec3 T * Vec3 T := V.
